@@ -1,10 +1,10 @@
 #!/bin/bash
-# Runs benign/PLAN.txt: for each line "<id> <checks...>" applies benign/<id>/patch.diff and runs those quick tiers.
+# Runs the plan file (default benign/PLAN.txt, override with BENIGN_PLAN): for each line "<id> <checks...>" applies benign/<id>/patch.diff and runs those quick tiers.
 # usage: VERIF_REPO=<scratch checkout> tools/run_benign_plan.sh
 cd "$(dirname "$0")/.." || exit 2
 bad=0
 while read -r id props; do
   case "$id" in ''|'#'*) continue;; esac
   tools/regress_benign.sh -p "$props" "$id" | grep -v '^SUMMARY' ; [ "${PIPESTATUS[0]}" = 0 ] || bad=$((bad+1))
-done < benign/PLAN.txt
+done < ${BENIGN_PLAN:-benign/PLAN.txt}
 echo "PLAN-SUMMARY patches_with_alarms=$bad"; [ $bad = 0 ]
